@@ -284,6 +284,7 @@ func (s *Space) variants() []Variant {
 	}
 	for x := range s.Fam.Children {
 		vs = append(vs, Variant{Name: "then-filter-" + s.Fam.Names[x], Thr: defaultThreshold, Withhold: -1, Filter: -1, Refilter: x + 1, KeepRefs: true, When: whenInterior})
+		vs = append(vs, Variant{Name: "then-one-filter-value-first-rejecting-then-accepting-" + s.Fam.Names[x], Thr: defaultThreshold, Withhold: -1, Filter: -1, Refilter: x + 1, Reuse: true, KeepRefs: true, When: whenInterior})
 		vs = append(vs, Variant{Name: "then-sort-by-time-then-filter-" + s.Fam.Names[x], Thr: defaultThreshold, Withhold: -1, Filter: -1, Refilter: x + 1, ByTime: true, KeepRefs: true, When: whenInterior})
 	}
 	vs = append(vs, Variant{Name: "filter-none", Thr: defaultThreshold, Withhold: -1, Filter: -2, When: whenInterior})
@@ -877,7 +878,49 @@ func (k *worker) evalVariant(v Variant, times []time.Time) *truth {
 				rl.Updates.SortByTimestamp()
 			}
 		}
-		again := append(append([]annotate.Option(nil), opts...), annotate.ChildFilter(func(id osm.FeatureID) bool { return id == accept }))
+		accepting := true
+		again := append(append([]annotate.Option(nil), opts...), annotate.ChildFilter(func(id osm.FeatureID) bool { return accepting && id == accept }))
+		if v.Reuse {
+			// spoil what the parents say about the child, keep it "annotated"
+			for _, w := range p.ways {
+				if !w.Visible {
+					continue
+				}
+				var keep osm.Updates
+				for _, u := range w.Updates {
+					if u.Index < len(w.Nodes) && w.Nodes[u.Index].FeatureID() != accept {
+						keep = append(keep, u)
+					}
+				}
+				w.Updates = keep
+				for j := range w.Nodes {
+					if w.Nodes[j].FeatureID() == accept && w.Nodes[j].Version != 0 {
+						w.Nodes[j].Version, w.Nodes[j].ChangesetID, w.Nodes[j].Lat, w.Nodes[j].Lon = 9999, 1, 88, 88
+					}
+				}
+			}
+			for _, rl := range p.rels {
+				if !rl.Visible {
+					continue
+				}
+				var keep osm.Updates
+				for _, u := range rl.Updates {
+					if u.Index < len(rl.Members) && rl.Members[u.Index].FeatureID() != accept {
+						keep = append(keep, u)
+					}
+				}
+				rl.Updates = keep
+				for j := range rl.Members {
+					if rl.Members[j].FeatureID() == accept && rl.Members[j].Version != 0 {
+						rl.Members[j].Version, rl.Members[j].ChangesetID, rl.Members[j].Lat, rl.Members[j].Lon = 9999, 1, 88, 88
+					}
+				}
+			}
+			accepting = false
+			callLibrary(f.IsWay(), p, ds, again) // the filter says no to everything: nothing is recomputed
+			k.calls++
+			accepting = true
+		}
 		err, panicked := callLibrary(f.IsWay(), p, ds, again)
 		k.calls++
 		switch {
